@@ -56,7 +56,7 @@ GRID = 6.25e9
 SLOT = 12.5e9
 GUARD_SLOTS = 4          # 25 GHz / 6.25 GHz
 MODES = {'m0': (100e9, 37.5e9), 'm1': (200e9, 50e9), 'm2': (400e9, 75e9)}   # bit rate, min spacing (bandnets lib)
-SPACINGS = [37.5e9, 50e9, 62.5e9, 75e9, 100e9]
+SPACINGS = [37.5e9, 50e9, 62.5e9, 75e9, 100e9, 40e9, 56.25e9, 81.25e9]   # the last three are no multiples of the 12.5 GHz slot
 
 # ------------------------------------------------------------------------------------------------ generator
 
